@@ -114,6 +114,22 @@ Definition agrees (c : case) : bool :=
 (** ** Executable oracle: the C17 theorems on the observed report *)
 Definition vrp_of (r : croa) : vrp := mkVrp (r_pfx r) (r_max r) (r_asn r).
 Definition route_of (a : ann) : route := mkRoute (a_pfx a) (a_asn a).
+(** The RFC 6811 state a krill validity stands for. *)
+Definition class_of (v : validity) : rov_state :=
+  match v with VValid _ => Valid | VNotFound => NotFound | VInvalidLength | VInvalidAsn | VDisallowed => Invalid end.
+
+(** The RFC 6811 state an announcement entry of the report stands for ([None]: not an announcement state). *)
+Definition state_class (s : state) : option rov_state :=
+  match s with
+  | AnnValid => Some Valid
+  | AnnInvalidLength | AnnInvalidAsn | AnnDisallowed => Some Invalid
+  | AnnNotFound => Some NotFound
+  | _ => None
+  end.
+
+(** "Within the CA's resources" / within the requested scope: some scope prefix covers the announced prefix. *)
+Definition in_scope (sc : resources) (a : ann) : Prop :=
+  exists p, In p (rs_v4 sc ++ rs_v6 sc) /\ covered_pfx p (a_pfx a) = true.
 
 (** Announcements in scope, by brute force with the RFC notion of "covered". *)
 Definition spec_scoped (store : list ann) (scope : list prefix) : list ann :=
@@ -238,6 +254,32 @@ Definition ok_suggest (c : case) (es : list entry) (s : suggestion) : bool :=
                                                    | None => matched (vrp_of r) (mkRoute (pl_pfx pl) (pl_asn pl))
                                                              && key_mem (enc_ann (mkAnn (pl_asn pl) (pl_pfx pl))) (map enc_ann scoped)
                                                    | Some _ => false end) new) (s_too_permissive s).
+
+(** ** Following the suggestion (not part of [c17_ok]: candidate finding F17e, see [AnalyserProofs.v])
+
+    The ROA configuration after the updates of [updates_of_suggestion] have been applied. Krill normalises
+    payloads to an explicit maximum length before applying them (src/server/ca/certauth.rs:2222), so a removal
+    hits every configured payload with the same (origin, prefix, effective maximum length). *)
+Definition payload_norm_eqb (a b : payload) : bool :=
+  (pl_asn a =? pl_asn b) && prefix_eqb (pl_pfx a) (pl_pfx b) && (eff_max a =? eff_max b).
+Definition config_after (roas : list croa) (s : suggestion) : list payload :=
+  let '(added, removed) := updates_of_suggestion s in
+  filter (fun pl => negb (existsb (payload_norm_eqb pl) removed)) (map r_pl roas) ++ added.
+Definition vrp_of_payload (pl : payload) : vrp := mkVrp (pl_pfx pl) (eff_max pl) (pl_asn pl).
+
+(** Every announcement in scope that is valid now is still valid after the suggestion has been followed. *)
+Definition ok_suggest_preserves (c : case) : bool :=
+  match c_sugg c, c_store c with
+  | Some s, Some st =>
+      let held := roas_held (c_roas c) (c_held c) (c_limit c) in
+      let scope := scope_of (c_held c) (c_limit c) in
+      let before := map vrp_of held in
+      let after := map vrp_of_payload (config_after held s) in
+      forallb (fun a => (a_asn a =? 0) || negb (rov_code (rov before (route_of a)) =? 0)
+                        || (rov_code (rov after (route_of a)) =? 0))
+              (spec_scoped st (rs_v4 scope ++ rs_v6 scope))
+  | _, _ => true
+  end.
 
 (** When the implementation panicked there must be a ROA for which [nr_of_specific_prefixes] is not computable
     (checked build) and that authorises an announcement at its maximum length. *)
